@@ -13,7 +13,7 @@ Variable finv : Z -> Z.
 Lemma exec_writes_fresh r m s sr :
   vm_exec finv r m s = Some sr -> forall x w, In (x, w) (s_writes sr) -> m x = None.
 Proof.
-  unfold vm_exec. intros H.
+  unfold vm_exec, deduce_op0, deduce_op1. intros H.
   destruct (ext r); try discriminate.
   destruct (addr_off (reg_base s (dst_register r)) (off0 r)) as [dst_a|]; [|discriminate].
   destruct (addr_off (reg_base s (op0_register r)) (off1 r)) as [op0_a|]; [|discriminate].
